@@ -173,6 +173,13 @@ def check(prop: str, tier: str, seed: int) -> int:
 
     required = getattr(mod, "REQUIRED_BUCKETS", [])
     missing = [b for b in required if m["hist"].get(b, 0) == 0]
+    extra = 0
+    while missing and extra < 3:
+        # top up with further generated cases (other seed) until every required branch bucket has been exercised
+        extra += 1
+        results += run_workers(prop, tier, seed + 100003 * extra, workers)
+        m = merge(results)
+        missing = [b for b in required if m["hist"].get(b, 0) == 0]
     if missing:
         print(f"INFRA: generator did not reach required buckets {missing}", file=sys.stderr)
         return 2
